@@ -409,6 +409,27 @@ int main(void) {
 			for (k = 0; k < nc; k++) free(arr[k].val); free(arr);
 			if (rc == KSI_OK && strcmp(tok[2], "-")) { snprintf(url, sizeof(url), "file://%s", tok[2]); rc = KSI_CTX_setPublicationUrl(ctx, url); }
 			printf("R pubcfg rc=0x%x\n", rc);
+		} else if (!strcmp(tok[0], "VDH")) {
+			/* VDH <sigHex> <docHex> same|other <caPem> <pubfilePath> <oid> <valHex>: the convenience entry points KSI_verifyDataHash / KSI_verifySignature (general policy).
+			 * The signature is parsed under the current context (configured with PUBCFG); `other` verifies through a SECOND context with the same trust store,
+			 * constraint and publications URL.  -> R vdh parse=.. datahash=<rc> signature=<rc> */
+			size_t sl = 0, dl = 0; unsigned char *sb = hx_dec(tok[1], &sl), *db = hx_dec(tok[2], &dl); KSI_Signature *sig = NULL; KSI_DataHash *doc = NULL; KSI_CTX *vctx = ctx, *c2 = NULL;
+			int prc = KSI_Signature_parseWithPolicy(ctx, sb, sl, KSI_VERIFICATION_POLICY_EMPTY, NULL, &sig), r1 = -1, r2 = -1;
+			if (prc == KSI_OK) prc = KSI_DataHash_fromImprint(ctx, db, dl, &doc);
+			if (prc == KSI_OK && !strcmp(tok[3], "other")) {
+				KSI_PKITruststore *pki = NULL; KSI_CertConstraint arr[2]; size_t l; unsigned char *v = hx_dec(tok[7], &l); char *sv = H_MALLOC(l + 1); char url[600];
+				memcpy(sv, v, l); sv[l] = 0; free(v); arr[0].oid = tok[6]; arr[0].val = sv; arr[1].oid = NULL; arr[1].val = NULL;
+				prc = KSI_CTX_new(&c2);
+				if (prc == KSI_OK) prc = KSI_PKITruststore_new(c2, 0, &pki);
+				if (prc == KSI_OK) prc = KSI_PKITruststore_addLookupFile(pki, tok[4]);
+				if (prc == KSI_OK) { prc = KSI_CTX_setPKITruststore(c2, pki); if (prc != KSI_OK) KSI_PKITruststore_free(pki); } else KSI_PKITruststore_free(pki);
+				if (prc == KSI_OK) prc = KSI_CTX_setDefaultPubFileCertConstraints(c2, arr);
+				if (prc == KSI_OK) { snprintf(url, sizeof(url), "file://%s", tok[5]); prc = KSI_CTX_setPublicationUrl(c2, url); }
+				free(sv); vctx = c2;
+			}
+			if (prc == KSI_OK) { r1 = KSI_verifyDataHash(vctx, sig, doc); r2 = KSI_verifySignature(vctx, sig); }
+			printf("R vdh parse=0x%x datahash=0x%x signature=0x%x\n", prc, (unsigned)r1, (unsigned)r2);
+			KSI_DataHash_free(doc); KSI_Signature_free(sig); KSI_CTX_free(c2); free(sb); free(db);
 		} else if (!strcmp(tok[0], "VERIFY")) {
 			/* VERIFY <policy> <sigHex> <userPubTime:imprintHex|-> <pubfileHex|-> <extendingAllowed 0|1> [<docHex|-> [<level|->]]   (blocking context from BNEW; the extender is endpoint 1) */
 			size_t sl = 0, pl = 0; unsigned char *sb = tok[2][0] == '@' ? NULL : hx_dec(tok[2], &sl), *pb = NULL; KSI_Signature *sig = NULL; KSI_PublicationsFile *pf = NULL; KSI_PublicationData *up = NULL;
